@@ -130,7 +130,7 @@ class PTr(Tr):
 # same-module straight-line helpers are inlined symbolically before translation
 # ------------------------------------------------------------------------------------------------
 # callees the translators map to Lean functions themselves (translated items / modelled primitives): never inlined
-KEEP_CALLS = {'jacobi', 'recurrence_abc', 'zernike_norm', 'kronecker', 'f_qbfs', 'g_qbfs', 'h_qbfs', 'hermite_He', 'hermite_H', 'jacobi_seq',
+KEEP_CALLS = {'Qbfs', 'gamma', 'abc_q2d', 'F_q2d', 'G_q2d', 'f_q2d', 'g_q2d', 'jacobi', 'recurrence_abc', 'zernike_norm', 'kronecker', 'f_qbfs', 'g_qbfs', 'h_qbfs', 'hermite_He', 'hermite_H', 'jacobi_seq',
               'jacobi_der_seq', 'dickson1_seq', 'dickson2_seq', 'optimize_xy_separable', '_as_sequence', 'laguerre', 'laguerre_seq'}
 
 
@@ -187,8 +187,33 @@ def inline_helpers(fn, mod, depth=3):
     return ast.fix_missing_locations(out)
 
 
-def get_def_inlined(mod, name):
-    return inline_helpers(get_def(mod, name), mod)
+def get_def_inlined(mod, name, extra=()):
+    """`extra`: further modules whose single-`return` helpers may be inlined too (e.g. prysm.mathops.sign)"""
+    both = mod if not extra else ast.Module(body=list(mod.body) + [st for e in extra for st in e.body], type_ignores=[])
+    return inline_helpers(positional_calls(get_def(mod, name), both), both)
+
+
+def positional_calls(fn, mod):
+    """calls `h(a, k=b)` to a function `h` defined at the top level of `mod` with keyword arguments -> all-positional calls
+    (so that `F_q2d(n=0, m=m)` and `F_q2d(0, m)` translate alike); a keyword that is not a parameter of `h` is left alone"""
+    import copy
+    sigs = {f.name: [a.arg for a in f.args.args] for f in mod.body
+            if isinstance(f, ast.FunctionDef) and not f.args.vararg and not f.args.kwarg and not f.args.kwonlyargs}
+
+    class Pos(ast.NodeTransformer):
+        def visit_Call(self, node):
+            self.generic_visit(node)
+            if isinstance(node.func, ast.Name) and node.func.id in sigs and node.keywords:
+                params = sigs[node.func.id]
+                slots = dict(zip(params, node.args))
+                for kw in node.keywords:
+                    if kw.arg is None or kw.arg not in params or kw.arg in slots:
+                        return node
+                    slots[kw.arg] = kw.value
+                if list(slots) and sorted(slots, key=params.index) == params[:len(slots)]:
+                    return ast.copy_location(ast.Call(func=node.func, args=[slots[q] for q in params[:len(slots)]], keywords=[]), node)
+            return node
+    return ast.fix_missing_locations(Pos().visit(copy.deepcopy(fn)))
 
 
 def _proj(k, n):
@@ -227,6 +252,7 @@ class Body:
         self.tuple_funcs = dict(tuple_funcs or {})   # callee -> (lean fn, arity of result)
         self.fname = fname                            # prefix of the loop-state accessor abbreviations
         self.prelude = []                             # Lean declarations emitted before the function
+        self.int_hints = set()                        # names read inside `range(...)` bounds: an int literal assigned to one stays an Int
 
     def lets_for_assign(self, s, tr):
         """-> (list of 'let a := b', new tr) for an Assign / AugAssign statement"""
@@ -240,7 +266,8 @@ class Body:
         ints = set(tr.ints)
         lets = []
         if isinstance(t, ast.Name):
-            if tr.is_int(v):
+            lit = isinstance(v, ast.Constant) and isinstance(v.value, int) and not isinstance(v.value, bool)
+            if tr.is_int(v) or (lit and t.id in self.int_hints):
                 # a Python int computed from Python ints stays a Lean Int of the same name
                 lets.append(f'let {t.id} : Int := {tr.int_expr(v)}')
                 env.pop(t.id, None)
@@ -396,7 +423,8 @@ class Body:
             if s.value is None:
                 raise Untranslatable('bare return')
             return self.ret(s.value, tr)
-        if isinstance(s, ast.If) and (_returns(s.body) or _returns(s.orelse or [])):
+        if isinstance(s, ast.If) and (_returns(s.body) or _returns(s.orelse or []) or _has_return(s)):
+            # a branch that returns early somewhere inside and otherwise falls through: the continuation is translated once per branch
             c = tr.cond(s.test)
             orelse = s.orelse or []
             then = self.run(s.body + ([] if _returns(s.body) else rest), tr, ind + '  ')
@@ -414,6 +442,10 @@ class Body:
         if isinstance(value, ast.Tuple):
             return '(' + ', '.join(tr.expr(x) for x in value.elts) + ')'
         return tr.expr(value)
+
+
+def _has_return(node):
+    return any(isinstance(n, ast.Return) for n in ast.walk(node))
 
 
 def _returns(stmts):
@@ -442,10 +474,12 @@ def translate_fn(fn, lean_name, int_params, k_params, tr_kwargs=None, tuple_func
         if isinstance(n, ast.Name) and n.id in allow_extra:
             raise Untranslatable(f'body reads {n.id}')
     bd = Body(tr, tuple_funcs=tuple_funcs, fname=lean_name)
+    bd.int_hints = {n.id for c in ast.walk(fn) if isinstance(c, ast.Call) and ast.unparse(c.func) == 'range'
+                    for a in c.args for n in ast.walk(a) if isinstance(n, ast.Name)}
     body = bd.run(fn.body, tr)
     binders = ' '.join([f'({p} : Int)' for p in int_params] + [f'({p} : K)' for p in k_params]
                        + [f'({p} : Bool)' for p in bool_params])
-    pre = ''.join(x + '\n' for x in bd.prelude)
+    pre = ''.join(x + '\n' for x in dict.fromkeys(bd.prelude))
     return f'{pre}def {lean_name} {extra_binders}{binders} : {ret} :=\n  {body}\n'
 
 
@@ -598,6 +632,44 @@ def generate(repo):
     g.item('Qbfs', 'prysm/polynomials/qpoly.py:Qbfs', lambda: get_def(qp, 'Qbfs'), qbfs,
            f'def qbfs (sqrt : K → K) (n : Int) (x : K) : K := {M}.qbfs sqrt n.toNat x')
 
+    # ---- 2D-Q: A.3 coefficients, gamma, F, G, f, g (recursive calls -> the model's functions) and the whole body of Q2d
+    mo, _ = load(repo, 'prysm/mathops.py')
+
+    def abc_q2d():
+        return translate_fn(get_def_inlined(qp, 'abc_q2d', [mo]), 'abcQ2d', [], ['n', 'm'], ret='K × K × K')
+    g.item('abc_q2d', 'prysm/polynomials/qpoly.py:abc_q2d', lambda: get_def(qp, 'abc_q2d'), abc_q2d,
+           f'def abcQ2d (n m : K) : K × K × K := {M}.q2dAbcK n m')
+
+    def gamma_body():
+        return translate_fn(get_def_inlined(mo, 'gamma'), 'gammaBody', ['n', 'm'], [], tr_kwargs={'intfuncs': {'gamma': f'{M}.q2dGammaI'}})
+    g.item('gamma', 'prysm/mathops.py:gamma', lambda: get_def(mo, 'gamma'), gamma_body,
+           f'def gammaBody (n m : Int) : K := {M}.q2dGammaI n m')
+
+    SPECIAL = {'special.factorial2': f'{M}.fact2I', 'special.factorial': f'{M}.factI', 'gamma': f'{M}.q2dGammaI'}
+    for (py, lean, model) in (('G_q2d', 'q2dGBody', 'q2dGI'), ('F_q2d', 'q2dFBody', 'q2dFI')):
+        def build(py=py, lean=lean):
+            return translate_fn(get_def_inlined(qp, py, [mo]), lean, ['n', 'm'], [], tr_kwargs={'intfuncs': SPECIAL, 'mixed': KRON})
+        g.item(py, f'prysm/polynomials/qpoly.py:{py}', (lambda py=py: get_def(qp, py)), build,
+               f'def {lean} (n m : Int) : K := {M}.{model} n m')
+
+    FG = {'F_q2d': f'{M}.q2dFI', 'G_q2d': f'{M}.q2dGI', 'f_q2d': f'{M}.q2dfI sqrt', 'g_q2d': f'{M}.q2dgI sqrt'}
+    for (py, lean, model) in (('g_q2d', 'q2dgBody', 'q2dgI'), ('f_q2d', 'q2dfBody', 'q2dfI')):
+        def build(py=py, lean=lean):
+            return translate_fn(get_def_inlined(qp, py, [mo]), lean, ['n', 'm'], [], tr_kwargs={'intfuncs': FG, 'sqrt': 'sqrt'},
+                                extra_binders='(sqrt : K → K) ')
+        g.item(py, f'prysm/polynomials/qpoly.py:{py}', (lambda py=py: get_def(qp, py)), build,
+               f'def {lean} (sqrt : K → K) (n m : Int) : K := {M}.{model} sqrt n m')
+
+    def q2d():
+        fn = get_def_inlined(qp, 'Q2d', [mo])
+        return translate_fn(fn, 'q2d', ['n', 'm'], ['r', 't'],
+                            tr_kwargs={'intfuncs': {'f_q2d': f'{M}.q2dfI sqrt', 'g_q2d': f'{M}.q2dgI sqrt'}, 'mixed': {'Qbfs': ('qbfs sqrt', 'ik')},
+                                       'unary': {'np.sin': 'sinf', 'np.cos': 'cosf'}, 'sqrt': 'sqrt'},
+                            tuple_funcs={'abc_q2d': ('abcQ2d', 3)}, extra_binders='(sinf cosf sqrt : K → K) ')
+    g.item('Q2d', 'prysm/polynomials/qpoly.py:Q2d', lambda: get_def(qp, 'Q2d'), q2d,
+           f'def q2d (sinf cosf sqrt : K → K) (n m : Int) (r t : K) : K :=\n'
+           f'  {M}.q2d sqrt n.toNat m r (if m < 0 then sinf (Num.ofInt (Int.natAbs m) * t) else cosf (Num.ofInt (Int.natAbs m) * t))')
+
     # ---- the cosine (a) and the sine (b) halves of the 2D-Q sum are the same code up to a <-> b
     def q2d_branches_symmetric():
         """compute_z_zprime_Q2d: the `if Na >= 0:` block, with a -> b in every identifier (Na->Nb, a_coef->b_coef, alphas_a->alphas_b,
@@ -620,6 +692,50 @@ def generate(repo):
         a = R().visit(copy.deepcopy(blocks['Na'][0]))
         return ast.dump(a) == ast.dump(blocks['Nb'][0])
     g.fact('q2dSumBranchesSymmetric', 'prysm/polynomials/qpoly.py:compute_z_zprime_Q2d', q2d_branches_symmetric)
+
+    # ---- the m = 1 correction of the 2D-Q sum (Forbes B.7): guard and constants of every `S -= c * alphas[k][i]` under `if m == M and N > K`
+    def q2d_m1_correction():
+        fn = get_def(qp, 'compute_z_zprime_Q2d')
+        rows = []
+        for n in ast.walk(fn):
+            if not (isinstance(n, ast.If) and isinstance(n.test, ast.BoolOp) and isinstance(n.test.op, ast.And) and len(n.test.values) == 2):
+                continue
+            c1, c2 = n.test.values
+            if not (isinstance(c1, ast.Compare) and ast.unparse(c1.left) == 'm' and len(c1.ops) == 1 and isinstance(c1.ops[0], ast.Eq)
+                    and isinstance(c1.comparators[0], ast.Constant)):
+                continue
+            if not (isinstance(c2, ast.Compare) and isinstance(c2.left, ast.Name) and len(c2.ops) == 1 and isinstance(c2.comparators[0], ast.Constant)
+                    and isinstance(c2.comparators[0].value, int)):
+                raise Untranslatable(f'guard {ast.unparse(n.test)}')
+            k = c2.comparators[0].value
+            if isinstance(c2.ops[0], ast.GtE):
+                k -= 1                                   # N >= k  is  N > k - 1
+            elif not isinstance(c2.ops[0], ast.Gt):
+                raise Untranslatable(f'guard {ast.unparse(n.test)}')
+            if n.orelse:
+                raise Untranslatable('correction with an else branch')
+            for st in n.body:
+                if not (isinstance(st, ast.AugAssign) and isinstance(st.op, ast.Sub) and isinstance(st.value, ast.BinOp) and isinstance(st.value.op, ast.Mult)):
+                    raise Untranslatable(f'statement {ast.unparse(st)}')
+                from fractions import Fraction
+                cst, arr = st.value.left, st.value.right
+                if isinstance(cst, ast.BinOp) and isinstance(cst.op, ast.Div) and all(isinstance(q, ast.Constant) and isinstance(q.value, int) for q in (cst.left, cst.right)):
+                    fr = Fraction(cst.left.value, cst.right.value)
+                elif isinstance(cst, ast.Constant) and isinstance(cst.value, (int, float)):
+                    fr = Fraction(repr(cst.value))
+                else:
+                    raise Untranslatable(f'constant {ast.unparse(cst)}')
+                if not (isinstance(arr, ast.Subscript) and isinstance(arr.value, ast.Subscript) and isinstance(arr.slice, ast.Constant)
+                        and isinstance(arr.value.slice, ast.Constant)):
+                    raise Untranslatable(f'operand {ast.unparse(arr)}')
+                rows.append((c1.comparators[0].value, k, fr.numerator, fr.denominator, arr.value.slice.value, arr.slice.value))
+        if not rows:
+            raise Untranslatable('no `if m == … and N… > …:` correction found')
+        body = ', '.join('(' + ', '.join(lean_int(v) for v in r) + ')' for r in rows)
+        return f'def q2dSumM1Correction : List (Int × Int × Int × Int × Int × Int) := [{body}]'
+    g.item('q2d_sum_m1_correction', 'prysm/polynomials/qpoly.py:compute_z_zprime_Q2d', lambda: get_def(qp, 'compute_z_zprime_Q2d'), q2d_m1_correction,
+           'def q2dSumM1Correction : List (Int × Int × Int × Int × Int × Int) :=\n'
+           '  [(1, 2, 2, 5, 0, 3), (1, 2, 2, 5, 1, 3), (1, 2, 2, 5, 0, 3), (1, 2, 2, 5, 1, 3)]')
 
     return g.finish()
 
